@@ -55,7 +55,7 @@ func runC20(c *eng.Ctx) {
 		c.Analysed(fn)
 		res := fn.Signature.Results()
 		for _, ret := range eng.Returns(fn) {
-			for i, rv := range ret.Results {
+			for i, rv := range eng.RetResults(ret) {
 				if i >= res.Len() || !isErrorType(res.At(i).Type()) {
 					continue
 				}
@@ -193,7 +193,7 @@ func runC20(c *eng.Ctx) {
 	})
 	c.Check("R3", "callback-records", recv.Pos(), cell != nil, "the callback stores Receive's error in a variable captured from Transmit")
 	for _, ret := range eng.Returns(cb) {
-		rv := ret.Results[0]
+		rv := eng.RetResults(ret)[0]
 		ok := rv == ssa.Value(recv)
 		if !ok && cell != nil {
 			if u, isU := rv.(*ssa.UnOp); isU && u.X == ssa.Value(cell) {
@@ -234,7 +234,7 @@ func runC20(c *eng.Ctx) {
 		}
 		last := p.Last()
 		if ret, ok := last.Instrs[len(last.Instrs)-1].(*ssa.Return); ok && len(p.Blocks) > 0 && len(last.Succs) == 0 {
-			if !eng.IsNilConst(ret.Results[0]) {
+			if !eng.IsNilConst(eng.RetResults(ret)[0]) {
 				continue // error return: fine
 			}
 		}
